@@ -112,29 +112,62 @@ func memMapFieldSeen(v ssa.Value, seen map[ssa.Value]bool) string {
 // memoryOps extracts the state accesses of a memory-driver method.
 func memoryOps(p *an.Prog, m *ssa.Function) []storeOp {
 	var out []storeOp
+	// accesses made by an unexported helper method of the store (called with the lock held) count as accesses of the
+	// call site in the contract method, like the transaction helpers of the persistent driver
+	type scan struct {
+		fn, attrFn *ssa.Function
+		attrIn     ssa.Instruction
+		depth      int
+	}
+	var work []scan
 	for _, fn := range an.WithAnon(m) {
-		an.AllInstrs(fn, func(in ssa.Instruction) {
+		work = append(work, scan{fn, fn, nil, 0})
+	}
+	seenHelper := map[*ssa.Function]bool{m: true}
+	for wi := 0; wi < len(work); wi++ {
+		sc := work[wi]
+		fn := sc.attrFn
+		attr := func(in ssa.Instruction) ssa.Instruction {
+			if sc.attrIn != nil {
+				return sc.attrIn
+			}
+			return in
+		}
+		an.AllInstrs(sc.fn, func(in ssa.Instruction) {
+			if c, ok := in.(ssa.CallInstruction); ok && sc.depth < 2 {
+				if h := c.Common().StaticCallee(); h != nil && !seenHelper[h] && h.Pkg == m.Pkg && len(h.Blocks) > 0 && h.Signature.Recv() != nil && m.Signature.Recv() != nil &&
+					types.Identical(h.Signature.Recv().Type(), m.Signature.Recv().Type()) && h.Object() != nil && !h.Object().Exported() {
+					seenHelper[h] = true
+					at := in
+					if sc.attrIn != nil {
+						at = sc.attrIn
+					}
+					for _, hf := range an.WithAnon(h) {
+						work = append(work, scan{hf, fn, at, sc.depth + 1})
+					}
+				}
+			}
 			switch x := in.(type) {
 			case *ssa.Lookup:
 				if f := memMapField(x.X); f != "" {
-					out = append(out, storeOp{Kind: opRead, Spaces: []string{memSpace(f)}, In: in, Fn: fn, Key: x.Index, Via: "lookup " + f})
+					out = append(out, storeOp{Kind: opRead, Spaces: []string{memSpace(f)}, In: attr(in), Fn: fn, Key: x.Index, Via: "lookup " + f})
 				}
 			case *ssa.MapUpdate:
 				if f := memMapField(x.Map); f != "" {
-					out = append(out, storeOp{Kind: opWrite, Spaces: []string{memSpace(f)}, In: in, Fn: fn, Key: x.Key, Val: x.Value, Via: "mapupdate " + f})
+					out = append(out, storeOp{Kind: opWrite, Spaces: []string{memSpace(f)}, In: attr(in), Fn: fn, Key: x.Key, Val: x.Value, Via: "mapupdate " + f})
 				}
 			case *ssa.Range:
 				if f := memMapField(x.X); f != "" {
-					out = append(out, storeOp{Kind: opIter, Spaces: []string{memSpace(f)}, In: in, Fn: fn, Via: "range " + f})
+					out = append(out, storeOp{Kind: opIter, Spaces: []string{memSpace(f)}, In: attr(in), Fn: fn, Via: "range " + f})
 				}
 			case ssa.CallInstruction:
 				if b, ok := x.Common().Value.(*ssa.Builtin); ok && len(x.Common().Args) >= 1 {
 					if f := memMapField(x.Common().Args[0]); f != "" {
 						switch b.Name() {
 						case "delete":
-							out = append(out, storeOp{Kind: opDelete, Spaces: []string{memSpace(f)}, In: in, Fn: fn, Key: x.Common().Args[1], Via: "delete " + f})
+							out = append(out, storeOp{Kind: opDelete, Spaces: []string{memSpace(f)}, In: attr(in), Fn: fn, Key: x.Common().Args[1], Via: "delete " + f})
 						case "len":
-							out = append(out, storeOp{Kind: opRead, Spaces: []string{memSpace(f)}, In: in, Fn: fn, Via: "len " + f})
+							out = append(out, storeOp{Kind: opRead, Spaces: []string{memSpace(f)}, In: attr(in), Fn: fn, Via: "len " + f})
 						}
 					}
 				}
